@@ -119,16 +119,17 @@ impl Report {
 
     /// Records a violation. `weight` orders cases inside a class: the lightest is kept as the replay.
     pub fn violation(&self, class: &str, what: &str, case: Value, weight: u64) {
-        self.violation_x(class, what, case, weight, false)
+        self.violation_x(false, class, what, case, weight)
     }
 
     /// A violation whose observation is conclusive without reproduction (history- or
     /// schedule-dependent differences between two encodes of the same input).
     pub fn violation_conclusive(&self, class: &str, what: &str, case: Value, weight: u64) {
-        self.violation_x(class, what, case, weight, true)
+        self.violation_x(true, class, what, case, weight)
     }
 
-    fn violation_x(&self, class: &str, what: &str, case: Value, weight: u64, conclusive: bool) {
+    /// `conclusive` first: used where a failure in multi-thread mode depends on the OS schedule.
+    pub fn violation_x(&self, conclusive: bool, class: &str, what: &str, case: Value, weight: u64) {
         let mut g = self.viols.lock().unwrap();
         match g.get_mut(class) {
             Some(v) => {
